@@ -149,13 +149,15 @@ def check_waveform_object(prefix, chans, wf, amps, W, U, R, mean, has_spikes, S,
     yield prefix + '-waveform-tables-present-and-aligned', ok_shape, (None if chans is None else chans.shape, None if wf is None else wf.shape)
     if not ok_shape:
         return
-    inrange = bool(np.all((chans >= 0) & (chans < S['nc'])))
+    # -1 = "no channel" padding (phylib's convention for unused columns) is not a listed channel
+    inrange = bool(np.all(((chans >= 0) & (chans < S['nc'])) | (chans == -1))) and bool(np.all(chans[:, 0] >= 0))
     yield prefix + '-listed-channels-are-channels', inrange, chans.tolist()
     if not inrange:
         return
     bad_peak, bad_probe, bad_near, bad_dist, bad_wf = [], [], [], [], []
     for i in range(n):
-        L = [int(c) for c in chans[i]]
+        cols = [j for j in range(chans.shape[1]) if chans[i, j] >= 0]
+        L = [int(chans[i, j]) for j in cols]
         peakset = argmax_set(ptp(W[i])) | argmax_set(ptp(U[i]))
         if L[0] not in peakset:
             bad_peak.append((i, L, sorted(peakset)))
@@ -165,7 +167,7 @@ def check_waveform_object(prefix, chans, wf, amps, W, U, R, mean, has_spikes, S,
             bad_dist.append((i, L))
         if not (nearest_ok(L, S, 'l1') or nearest_ok(L, S, 'l2')):
             bad_near.append((i, L))
-        if has_spikes[i] and i not in skip and not close(wf[i], R[i][:, L]):
+        if has_spikes[i] and i not in skip and not close(wf[i][:, cols], R[i][:, L]):
             bad_wf.append((i, L, np.round(wf[i][:2], 4).tolist(), np.round(R[i][:, L][:2], 4).tolist()))
     yield prefix + '-peak-channel-listed-first', not bad_peak, bad_peak[:3]
     yield prefix + '-listed-channels-on-peak-channel-probe', not bad_probe, bad_probe[:3]
@@ -403,17 +405,17 @@ def geometry_input(pos, ncc, probes=None, seed=0, label='', factor=1, sc='same',
 def enumerate_cases(ctx):
     quick = ctx.tier == 'quick'
     # ---- geometries with ties: every placement of 3..5 channels on a 2 x 3 grid, every channel a peak channel
-    ctx.scope('values / geometry: all subsets of %s channels of a 2x3 grid with pitch 10 (distance ties, L1 != L2 orders), listed in two orders, '
+    ctx.scope('values / geometry: all subsets of %s channels of a 2x3 grid with pitch 10 (distance ties, L1 != L2 orders), listed in two orders (quick: one), '
               'one template peaking on each channel, list length n_closest_channels in {2, 3, default 12}; single probe, and two-probe tables '
               'split 2+rest (class: probe smaller than the list) ' % ('3..5' if quick else '2..6'))
     i = 0
     for n in ((3, 4, 5) if quick else (2, 3, 4, 5, 6)):
         for sub in itertools.combinations(range(6), n):
-            for order in (0, 1):
+            for order in ((i % 2,) if quick else (0, 1)):
                 idx = list(sub)[::-1] if order else list(sub)
                 pos = [GRID[k] for k in idx]
                 for ncc in (2, 3, None):
-                    if quick and (i + order) % 2 and ncc == 3:
+                    if quick and i % 3 and ncc == 3:
                         continue
                     ctx.run('values', geometry_input(pos, ncc, seed=i % 7, factor=[1, 2.5][i % 2], label=['', 'x'][(i // 2) % 2]))
                 if n >= 4 and (not quick or i % 3 == 0):
@@ -436,7 +438,7 @@ def enumerate_cases(ctx):
                     if quick and (k % 2) and wh:
                         k += 1
                         continue
-                    for ncc in ((None, 2) if quick else (None, 2, 3)):
+                    for ncc in (((None, 2) if k % 3 == 0 else (None, 2)[k % 2:][:1]) if quick else (None, 2, 3)):
                         ds = B.base_ds(seed=k % 6, nc=4 + (k % 2), spike_clusters=cur[cname], features=feat, raw=raw,
                                        sample_rate=[100.0, 2500.0, 30000.0][k % 3], **wh)
                         ctx.run('values', {'ds': ds, 'ncc': ncc, 'label': ['', 'probe00'][k % 2], 'ampfactor': [1, 2, 2.5, 2.34e-6][k % 4],
@@ -449,6 +451,10 @@ def enumerate_cases(ctx):
                 v2 = dict(v)
                 nc = v2.pop('n_channels', 4)
                 ctx.run('values', {'ds': B.base_ds(seed=3, nc=nc, spike_clusters=cur[cname], **v2), 'ncc': ncc, 'label': '', 'ampfactor': 2.0, 'out': 'sibling'})
+    # curations that leave no id empty (reassignment of one spike, permuted ids): today the known class of C13
+    for cname in ('reassign', 'permuted'):
+        for ncc in (None, 2):
+            ctx.run('values', {'ds': B.base_ds(seed=2, spike_clusters=cur[cname], features=(ncc is None)), 'ncc': ncc, 'label': '', 'ampfactor': 2.0, 'out': 'sibling'})
     st_mid = [0 if t == 1 else t for t in st]
     for sc in (None, 'same', [3 if t == 0 else t for t in st_mid]):
         for feat in (False, True):
